@@ -347,7 +347,19 @@ def observe_v2(task, rep, workdir):
         err = ""
     except Exception as e:
         err = type(e).__name__
-    for a, fn in (("v2_write_pdb", lambda: parser_v2.write_pdb(df)), ("v2_write_cif", lambda: parser_v2.write_cif(df))):
+    def fitted_text():
+        # the same table with multi-character chain ids, so that it has to be FITTED before it can be written
+        d2 = df.copy()
+        d2.attrs.update(df.attrs)
+        col = "chainID" if d2.attrs.get("format") == "PDB" else "auth_asym_id"
+        num = "resSeq" if d2.attrs.get("format") == "PDB" else "auth_seq_id"
+        # ... and with every chain cut into four by residue number, so that several chains are renamed
+        d2[col] = [f"{ch}-{int(n) % 4}" for ch, n in zip(d2[col].astype(str), d2[num])]
+        d2[col] = d2[col].astype("category")
+        return parser_v2.write_pdb(parser_v2.fit_to_pdb(d2))
+
+    for a, fn in (("v2_write_pdb", lambda: parser_v2.write_pdb(df)), ("v2_write_cif", lambda: parser_v2.write_cif(df)),
+                  ("v2_fit_write_pdb", fitted_text)):
         if err:
             out.append(_obs(name, a, rep, err=err))
             continue
@@ -490,7 +502,7 @@ def run_children(tasks, seeds, nshards, scratch, reps=2, timeout=1500):
 ABBR = {"all_dot_brackets": "adb", "map_all_dot_brackets": "madb", "cli_stdout_all": "cadb", "elements": "elem",
         "optimal_db": "opt", "fcfs": "fcfs", "cli_json": "json", "cli_csv": "csv", "cli_bpseq": "bpseq",
         "cli_stdout": "out", "cli_stdout_extended": "ext", "cli_graphviz": "gv", "cli_pml": "pml",
-        "cli_inter_stem_csv": "iscsv", "cli_stems_csv": "stcsv", "v2_write_pdb": "wpdb", "v2_write_cif": "wcif",
+        "cli_inter_stem_csv": "iscsv", "cli_stems_csv": "stcsv", "v2_write_pdb": "wpdb", "v2_write_cif": "wcif", "v2_fit_write_pdb": "fpdb",
         "bpseq": "mbps", "map_dot_bracket": "mdb", "ext_dot_bracket": "mext"}
 
 
